@@ -21,11 +21,57 @@ func (fr *Frame) execCall(st *State, in *ssa.Call) {
 // rememberCall records the results of the most recent call to each named
 // function on this path (spec builtins last(f), last1(f)).
 func (fr *Frame) rememberCall(st *State, c *ssa.CallCommon, res []*Val) {
-	x := fr.x
 	name := lastCallName(c)
 	if name == "" || len(res) == 0 {
 		return
 	}
+	fr.rememberCallAs(st, name, res)
+	// qualified key (Type_Name) for names that several callees share
+	// (error.Error vs. a function-valued field Error): last(Archiver_Error)
+	if q := qualifiedLastName(c); q != "" {
+		fr.rememberCallAs(st, q, res)
+	}
+}
+
+// qualifiedLastName: <receiver or struct type name>_<name> for interface
+// methods, methods and function-valued struct fields.
+func qualifiedLastName(c *ssa.CallCommon) string {
+	tn := func(t types.Type) string {
+		if p, ok := t.(*types.Pointer); ok {
+			t = p.Elem()
+		}
+		if n, ok := t.(*types.Named); ok {
+			return n.Obj().Name()
+		}
+		return ""
+	}
+	if c.IsInvoke() {
+		if n := tn(c.Value.Type()); n != "" {
+			return n + "_" + c.Method.Name()
+		}
+		return ""
+	}
+	if f := c.StaticCallee(); f != nil {
+		if r := f.Signature.Recv(); r != nil {
+			if n := tn(r.Type()); n != "" {
+				return n + "_" + f.Name()
+			}
+		}
+		return ""
+	}
+	if u, ok := c.Value.(*ssa.UnOp); ok {
+		if fa, ok := u.X.(*ssa.FieldAddr); ok {
+			st, _ := under(ptrElem(fa.X.Type())).(*types.Struct)
+			if n := tn(fa.X.Type()); n != "" && st != nil {
+				return n + "_" + st.Field(fa.Field).Name()
+			}
+		}
+	}
+	return ""
+}
+
+func (fr *Frame) rememberCallAs(st *State, name string, res []*Val) {
+	x := fr.x
 	if x.lastCalls == nil {
 		x.lastCalls = map[string][]*Cell{}
 	}
@@ -65,6 +111,12 @@ func lastCallName(c *ssa.CallCommon) string {
 		// a captured variable holding a function value
 		if fv, ok := u.X.(*ssa.FreeVar); ok {
 			return fv.Name()
+		}
+		// a function-valued struct field: the field's name
+		if fa, ok := u.X.(*ssa.FieldAddr); ok {
+			if st, ok := under(ptrElem(fa.X.Type())).(*types.Struct); ok {
+				return st.Field(fa.Field).Name()
+			}
 		}
 	} else if p, ok := c.Value.(*ssa.Parameter); ok {
 		return p.Name()
